@@ -194,6 +194,9 @@ pub fn check_diff(rep: &mut Rep, w: &World, f_c: i128, sf: TimeScale, e_c: i128,
         return;
     }
     rep.sample(cls, || format!("Epoch({},{:?}) - Epoch({},{:?}) => want {}", f_c, sf, e_c, se, want));
+    if tol == 0 {
+        rep.log_event("ediff", || format!("\"f\":\"{}\",\"sf\":\"{:?}\",\"e\":\"{}\",\"se\":\"{:?}\",\"want\":\"{}\"", f_c, sf, e_c, se, want));
+    }
     match guard(|| f - e) {
         Err(p) => rep.fail(&format!("diff/panic/{}", p.class()), None, || format!("Epoch({},{:?}) - Epoch({},{:?}) panicked {}", f_c, sf, e_c, se, p.msg)),
         Ok(g) => {
